@@ -84,7 +84,8 @@ Close(o, t, rec) ==
 \* whose new start is >= 0 must stay; inside the tolerance band either is accepted
 MustDrop(c, rec) == LET n == ScaledNew(c.s, rec) IN
                     IIsNeg(n) /\ ~Leq(MulSmall(n.m, 1000), FromSmall(rec.tol * rec.q))
-MustKeep(c, rec) == ~IIsNeg(ScaledNew(c.s, rec))
+MustKeep(c, rec) == LET n == ScaledNew(c.s, rec) IN
+                    ~IIsNeg(n) /\ (rec.tol = 0 \/ ~Leq(MulSmall(n.m, 1000), FromSmall(rec.tol * rec.q)))
 
 RECURSIVE AdjustOk(_, _, _)
 AdjustOk(in, out, rec) ==
